@@ -313,21 +313,44 @@ func runC16(c *Ctx) {
 				c.ok("C16.R2", k, "the failure side writes to the log and reaches only the loop header", gp.posOf(f.Edge.From))
 			}
 		}
-		// the loop ranges over the parameter
+		// the loop visits the parameter's elements 0, 1, 2, ... len-1 in this order
+		// (induction form: index of iteration T is T, len(param) iterations)
 		rangeOK := false
+		zr := &Polyizer{}
 		for _, in := range gp.Ins {
-			if ia, ok := in.(*ssa.IndexAddr); ok && ia.X == ssa.Value(probe.Params[0]) {
-				if bo, ok := ia.Index.(*ssa.BinOp); ok && bo.Op == token.ADD {
-					if phi, ok := bo.X.(*ssa.Phi); ok {
-						if one, ok := constInt64(bo.Y); ok && one == 1 {
-							for _, e := range phi.Edges {
-								if v, ok := constInt64(e); ok && v == -1 {
-									rangeOK = true
-								}
+			var base, index ssa.Value
+			switch x := in.(type) {
+			case *ssa.IndexAddr:
+				base, index = x.X, x.Index
+			case *ssa.Index:
+				base, index = x.X, x.Index
+			}
+			if base == nil || base != ssa.Value(probe.Params[0]) {
+				continue
+			}
+			lf, ok := gp.loopFormAt(zr, in.Block())
+			if !ok {
+				continue
+			}
+			first, step, okA := lf.affineInT(index)
+			trips, tripsOK := lf.Trips, lf.TripsOK
+			lf.Done()
+			f0, isC0 := first.isConst()
+			s1, isC1 := step.isConst()
+			lenOK := false
+			if tripsOK {
+				for _, k := range gp.Ins {
+					if call, ok := k.(*ssa.Call); ok {
+						if bi, ok := call.Common().Value.(*ssa.Builtin); ok && bi.Name() == "len" && call.Common().Args[0] == ssa.Value(probe.Params[0]) {
+							if trips.equal(zr.Of(call)) {
+								lenOK = true
 							}
 						}
 					}
 				}
+			}
+			if okA && isC0 && f0 == 0 && isC1 && s1 == 1 && lenOK {
+				rangeOK = true
 			}
 		}
 		c.check(rangeOK, "C16.R1", "iteration-order "+m.fnName(probe), "probe ranges over its (sorted) parameter from index 0 upwards", "probe does not iterate its parameter in ascending index order", m.pos(probe.Pos()))
